@@ -655,6 +655,9 @@ class CDSInterval(AbstractFeatureInterval):
         Any leading or trailing bases that are annotated as CDS but cannot form a full codon
         are excluded.
         """
+        # a 0bp window is falsy and would otherwise be mistaken for "no window"; it contains no codon
+        if relative_window is not None and len(relative_window) == 0:
+            return
         # can only do naive window scanning if this CDS has exactly one exon
         if self.num_blocks > 1:
             codon_fn = self._prepare_multi_exon_window_for_scan_codon_locations
